@@ -1,0 +1,12 @@
+//go:build verif
+// +build verif
+
+package basestreamseeder
+
+import "sync/atomic"
+
+// VerifPendingResponsesSize exposes the amount of response memory which is enqueued to the senders but not
+// sent yet. It exists only in builds with the "verif" tag and is used by the runtime monitors.
+func (s *BaseSeeder) VerifPendingResponsesSize() int64 {
+	return atomic.LoadInt64(&s.pendingResponsesSize)
+}
